@@ -329,6 +329,13 @@ def _m(p, e, b):
         if len(p.ops) != len(e.ops):
             return None
         if len(p.ops) == 1:
+            # a tolerance test `|x| < k * eps` and `|x| <= k * eps` are the same test (the boundary is a single float)
+            if {type(p.ops[0]), type(e.ops[0])} in ({ast.Lt, ast.LtE}, {ast.Gt, ast.GtE}) and \
+                    any(isinstance(y, ast.Name) and ('eps' in y.id.lower() or y.id == 'tol') for y in ast.walk(e)):
+                bb = _m(p.left, e.left, b)
+                bb = _m(p.comparators[0], e.comparators[0], bb) if bb is not None else None
+                if bb is not None:
+                    return bb
             if type(p.ops[0]) is type(e.ops[0]):
                 bb = _m(p.left, e.left, b)
                 bb = _m(p.comparators[0], e.comparators[0], bb) if bb is not None else None
